@@ -1202,7 +1202,8 @@ class XsdGroup(XsdComponent, MutableSequence[ModelParticleType],
             reason = _("wrong content type {!r}").format(type(obj.content))
             context.validation_error(validation, self, reason, elem)
 
-        if not self.mixed and text and text.strip() and \
+        if not self.mixed and (text and text.strip() or
+                               any(e.tail and e.tail.strip() for e in children)) and \
                 (len(self) != 1 or not isinstance(self[0], XsdAnyElement)):
             reason = _("character data between child elements not allowed")
             context.validation_error(validation, self, reason, elem)
